@@ -62,8 +62,8 @@ def run(res, tier):
         if f not in ui.funcs:
             raise AnalysisError(f"anchor {f} missing in {INV}")
     enum = ctypeinfo.load()["enumerators"]
-    F = pipeline.Flattener(uf)
-    FI = pipeline.Flattener(ui)
+    F = pipeline.Flattener(uf, stop=pipeline.STAGES[uf.tu])
+    FI = pipeline.Flattener(ui, stop=pipeline.STAGES[ui.tu])
 
     # ------------------------------------------------------------- R-SIBLING-SEQ
     res.rule("R-SIBLING-SEQ", "mj_step == mj_step1;mj_step2 as guarded stage sequences, per integrator", floor=90)
